@@ -188,6 +188,10 @@ def impl_parse(s):
     """Outcome of the real parser and the property verdict for this input; the string is parsed a second time right away
     (parsing is independent of what was parsed before - seeded C16-7: remembered failures re-raised differently)"""
     out, why = _parse_once(s)
+    if why is None and out.get("err") in ("parsing", "unsupported"):
+        # the entry points that clients use (NodeBase.xpath / Document.xpath) report the same error of the same class
+        # (seeded C16-9: the error rebuilt on the way out)
+        why = _through_entry_points(s, out)
     if why is None and out.get("err") != "recursion":
         out2, why2 = _parse_once(s)
         if why2 is not None:
@@ -195,6 +199,31 @@ def impl_parse(s):
         elif comparable(out2) != comparable(out) or out2.get("rendered") != out.get("rendered"):
             why = f"second parse of the same string differs: {out2}"
     return out, why
+
+
+_ENTRY_DOC = []
+
+
+def _through_entry_points(s, out):
+    from delb import Document
+    from _delb.exceptions import XPathParsingError, XPathUnsupportedStandardFeature
+
+    if not _ENTRY_DOC:
+        _ENTRY_DOC.append(Document("<r><a/></r>"))
+    doc = _ENTRY_DOC[0]
+    for name, call in (("TagNode.xpath", lambda: doc.root.xpath(s)), ("Document.xpath", lambda: doc.xpath(s))):
+        try:
+            call()
+            return f"{name} accepts an expression that parse() refuses"
+        except XPathParsingError as e:
+            kind = "unsupported" if isinstance(e, XPathUnsupportedStandardFeature) else "parsing"
+            if kind != out["err"] or e.position != out["pos"] or e.expression != s:
+                return f"{name} reports another parsing error than parse(): {kind} at {e.position}"
+        except RecursionError:
+            pass
+        except Exception as e:  # noqa: BLE001
+            return f"{name} raised {type(e).__name__} for an expression that parse() refuses with a parsing error: {e}"
+    return None
 
 
 def _parse_once(s):
